@@ -24,7 +24,7 @@ func init() {
 		"fmt.Errorf":               stubErrorf,
 		"fmt.Sprintf":              stubSprintf,
 		"fmt.Fprintf":              stubFprintf,
-		"fmt.Sprint":               stubOpaqueString,
+		"fmt.Sprint":               stubSprint,
 		"fmt.Println":              stubNop,
 		"fmt.Printf":               stubNop,
 		"log.Printf":               stubNop,
@@ -499,4 +499,37 @@ func (x *Exec) refineCRC(extra *term.Term, m map[string]uint64) map[string]uint6
 	}
 	x.needExact = true
 	return nil
+}
+
+// stubSprint: fmt.Sprint with concrete operands is formatted for real; symbolic operands are not modelled (the
+// spacing rules make the result length data dependent), so the job is inconclusive rather than wrong.
+func stubSprint(x *Exec, f *Closure, a []Value, cc *ssa.CallCommon) Value {
+	va := a[0].(Slice)
+	n := x.cint(va.Len, "Sprint nargs")
+	off := x.cint(va.Off, "Sprint off")
+	var goArgs []interface{}
+	for i := 0; i < n; i++ {
+		iv, _ := va.Arr.Kids[off+i].V.(Iface)
+		switch v := iv.V.(type) {
+		case *term.Term:
+			if !v.IsConst() {
+				x.unsupported("fmt.Sprint of a symbolic value")
+			}
+			if v.S.K == term.KBool {
+				goArgs = append(goArgs, v.Val == 1)
+			} else if _, signed, _ := typeWidth(iv.T); signed {
+				goArgs = append(goArgs, v.Int())
+			} else {
+				goArgs = append(goArgs, v.Val)
+			}
+		case Str:
+			if v.Sym {
+				x.unsupported("fmt.Sprint of a symbolic string")
+			}
+			goArgs = append(goArgs, v.S)
+		default:
+			x.unsupported("fmt.Sprint of %T", iv.V)
+		}
+	}
+	return Str{S: fmt.Sprint(goArgs...)}
 }
